@@ -197,8 +197,9 @@ class RankRunner:
                                       for n, f in sd['layers'].items()}
                 with torch.no_grad():
                     for p in self.model.parameters():
-                        if p.grad is not None:
-                            p.add_(p.grad, alpha=-c.get('sgd_lr', 0.05))
+                        if p.grad is not None and torch.isfinite(p.grad).all():
+                            # bounded update (identical on every rank because the gradients are)
+                            p.add_(p.grad / max(1.0, p.grad.abs().max().item()), alpha=-c.get('sgd_lr', 0.05))
             elif kind == 'eval':
                 self.model.eval()
                 self.model.zero_grad(set_to_none=True)
